@@ -352,7 +352,7 @@ class E:
 try:
     import numpy as _np
 
-    _ARR = _np.ndarray
+    _ARR = (_np.ndarray, )
 except Exception:  # pragma: no cover
     _ARR = ()
 
@@ -371,14 +371,20 @@ class Inf:
         return "inf"
 
     def __rtruediv__(self, o):
+        if type(o).__name__ == "Opaque":
+            return NotImplemented
         if isinstance(o, _ARR):
             return NotImplemented
         return ZERO
 
     def __truediv__(self, o):
+        if type(o).__name__ == "Opaque":
+            return NotImplemented
         raise AlgError("inf / x is not modelled")
 
     def __mul__(self, o):
+        if type(o).__name__ == "Opaque":
+            return NotImplemented
         raise AlgError("inf * x is not modelled")
 
     __rmul__ = __mul__
@@ -415,6 +421,18 @@ def _tick(n):
         raise Budget(f"algebra work budget exceeded ({_WORK[1]} term products)")
     if _DEADLINE[0] is not None and _time.time() > _DEADLINE[0]:
         raise Budget("algebra time budget exceeded")
+
+
+class _OpaqueMeta(type):
+    def __instancecheck__(cls, obj):
+        return type(obj).__name__ == "Opaque"
+
+
+class _OpaqueLike(metaclass=_OpaqueMeta):
+    """isinstance(x, _OpaqueLike) is true for values.Opaque (which this module cannot import)"""
+
+
+_ARR = tuple(_ARR) + (_OpaqueLike,)      # arithmetic with an array or with an unmodelled value is left to the other operand
 
 
 def lift(x):
@@ -1358,6 +1376,10 @@ def evalf(e, env=None, seed=0, strict=False, tie=0.0):
                     v = val(a.args[1]) if gval(a.args[0]) else val(a.args[2])
                 except AlgError:
                     v = _prf(a.kind, tuple(argval(g) for g in a.args), seed)
+            elif k == "fn:inf":
+                # a cell that may be infinite: the normal form cancels S*|S|^-2 -> S^-1 (valid for finite S), which IEEE inf would turn
+                # into nan, so witness points use a huge finite stand-in: x/S vanishes to 30 digits, and nothing is ever proved through it
+                v = 1e30
             elif k == "fn:round" and len(a.args) in (1, 2):
                 x = val(a.args[0])
                 nd = a.args[1] if len(a.args) == 2 else 0
